@@ -342,3 +342,30 @@ func H13f_q() {
 	bad := sign != 0 || code2 != code1 || (code2 == 0 && nd > 0) || (hasMsg && msg2 != msg1) || (hasMsg && code1 == 0 && enc != "")
 	vAssert((p.n == 0) == !bad, "status trailers are accepted exactly when grpc-status is an unsigned number and grpc-status, grpc-message and grpc-status-details-bin agree (and an OK status carries neither message nor details)")
 }
+
+// ---- H13g: one call, several HTTP operations (a redirect that the HTTP client follows, a retry) ----
+//
+// Every traced HTTP operation of a call reports its trace to the call's wire wrapper; whatever the server sends
+// (a 3xx with a Location header included) must not crash the examiner, and the details of the call stay available.
+func H13g_q() {
+	n := vInt("operations", 1, 3)
+	ctx := withWireCapture(context.Background())
+	req := (&http.Request{Header: http.Header{}}).WithContext(ctx)
+	wt := &wireTracer{}
+	status := [3]int{307, 308, 200}
+	for i := 0; i < 3; i++ {
+		if i < n {
+			wt.Complete(tracer.Trace{Request: req, Response: &http.Response{StatusCode: status[i], Header: http.Header{"Content-Type": []string{"text/plain"}}}}) // obligation: no reachable panic
+		}
+	}
+	p := &vCountPrinter{}
+	code, ok := examineWireDetails(ctx, p)
+	last := status[0]
+	for i := 1; i < 3; i++ {
+		if i < n {
+			last = status[i]
+		}
+	}
+	vAssert(ok && (code == status[0] || code == last), "the wire details of one of the call's HTTP operations (the first or the last) are reported")
+	vAssert(p.n == 0, "no feedback for plain responses without trailers")
+}
